@@ -442,7 +442,10 @@ class C14Copy(Checker):
     def before(self, w, op):
         self.pre = None
         if op['op'] == 'DEEPCOPY':
-            node = w.node(op['p'])
+            try:
+                node = w._detached(op['reuse'], op.get('reuse_doc')) if 'reuse' in op else w.node(op['p'])
+            except Exception:
+                node = None
             if node is not None:
                 self.pre = (node, w.cheap_tree(node), infork(lambda: w._quiet(lambda: w.verdict(node.el))))
 
@@ -809,6 +812,17 @@ class C18Unchecked(Checker):
 
     def after(self, w, op, ev):
         k = op['op']
+        if k == 'WRITE' and ev['r'] != 'skip':
+            root = w.docs.get(op['doc'])
+            if root is not None and not root.xsd_check and ev['r'] == 'exc' and not isinstance(w.last_exc, OSError):
+                # an unchecked root runs no final checks: to_string() cannot fail, so neither may write()
+                w.violate('C18', 'unchecked-raised', {'elem': root.name, 'op': 'WRITE', 'exc': ev['t'], 'child': None})
+            return
+        if k == 'DEEPCOPY' and ev['r'] == 'exc':
+            node = w.node(op['p'])
+            if node is not None and all(not n.xsd_check for n in node.walk()):
+                w.violate('C18', 'unchecked-raised', {'elem': node.name, 'op': 'DEEPCOPY', 'exc': ev['t'], 'child': None})
+            return
         if k in ('ADD', 'REMOVE', 'REPLACE', 'TO_STRING') and 'p' in op:
             node = w.node(op['p'])
             if node is None or ev['r'] == 'skip':
@@ -904,6 +918,10 @@ class C15Surfaces(Checker):
                 w.violate('C15', 'dot-read-wrong-child', {'elem': node.name, 'name': op['name'], 'got': ev.get('v'), 'want': None})
             elif same and (not isinstance(ev.get('v'), list) or ev['v'][0] != 'child' or ev['v'][1] not in same):
                 w.violate('C15', 'dot-read-wrong-child', {'elem': node.name, 'name': op['name'], 'got': ev.get('v'), 'want': same})
+            elif same and op.get('ryw') is not None and ev['v'][2] != op['ryw']:
+                # read-your-write through the shortcut surface: e.xml_x = v; e.xml_x must be the child that now holds v
+                w.violate('C15', 'dot-read-wrong-child', {'elem': node.name, 'name': op['name'], 'assigned': op['ryw'],
+                                                          'read_back': ev['v'][2], 'same_named_children': len(same)})
         if op['op'] == 'ATTR_GET' and ev['r'] != 'skip':
             node = w.node(op['p'])
             sn = schema_attr_name(node.name, op['name'])
@@ -964,16 +982,21 @@ class C17Write(Checker):
         w.async_in_to_string = None
 
     def after(self, w, op, ev):
+        if op['op'] == 'PARSE' and op.get('c17ref') and ev['r'] != 'skip':
+            w.c17_ref = (ev['r'], ev.get('t'))
+            return
         if op['op'] == 'PARSE' and op.get('c17cmp') and ev['r'] != 'skip':
             # parsing must not depend on the default text encoding
             ref = w.docs.get(op['c17cmp'])
             got = w.docs.get(op['doc'])
             w.count('c17.parses_compared')
-            if ref is None:
-                return      # the reference parse failed: nothing to compare (C09's business)
-            if ev['r'] == 'exc':
-                w.violate('C17', 'locale-dependent-outcome', {'what': 'parse_musicxml', 'encoding': w.fs.default_encoding, 'exc': ev['t']})
+            r0 = getattr(w, 'c17_ref', None)
+            if r0 is not None and r0 != (ev['r'], ev.get('t')):
+                w.violate('C17', 'locale-dependent-outcome', {'what': 'parse_musicxml', 'encoding': w.fs.default_encoding,
+                                                               'under_utf8': list(r0), 'under_this_encoding': [ev['r'], ev.get('t')]})
                 return
+            if ref is None or got is None:
+                return      # both failed alike
             a = infork(lambda: w._quiet(lambda: w.verdict(ref.el)))
             b = infork(lambda: w._quiet(lambda: w.verdict(got.el)))
             if a != b:
